@@ -275,7 +275,7 @@ func (r *run) wireWanted(sc *scenario) bool {
 		return r.wireTick%r.c.Pick(60, 10) == 0
 	}
 	r.wireTick++
-	return r.wireTick%r.c.Pick(10, 2) == 0
+	return r.wireTick%r.c.Pick(14, 2) == 0
 }
 
 func whyFail(sc *scenario) string {
@@ -527,6 +527,7 @@ func main() {
 	defer c.Finish()
 	c.Family("verify", caseHeader, "fun c => andb pk_selftest (verify_case_ok c)", c.Pick(250, 400))
 	c.Family("sign", caseHeader, "fun c => andb pk_selftest (sign_case_ok c)", 200)
+	c.Family("history", caseHeader, "fun c => andb pk_selftest (history_case_ok c)", 40)
 	c.Family("wire", wireHeader, "fun c => andb pk_selftest (wire_case_ok c)", c.Pick(60, 100))
 	r := &run{c: c, failed: map[string]int{}, seen: map[string]bool{}}
 	// the pool is a function of the seed only (replays rebuild the same keys)
@@ -536,10 +537,11 @@ func main() {
 		r.replay()
 		return
 	}
-	c.Res.Rule = "scenario = advertisement shape (with/without previous link, real/NoEntries link, removal, ExtendedProvider absent / empty / 1..3 entries with or without override, main provider listed at any position or not, signer = provider or a separate publisher) x key types {ed25519, secp256k1, ecdsa, rsa-2048} for signer and entries x key assignment to entries (proper / foreign key / ad signer's key) x one mutation (each of the 6+5 signed values in several ways; each envelope field; every single byte of the ad envelope and of one entry envelope for one advertisement per key type; empty / garbage / truncated signatures; structure changes) x codec round trip before the mutation (none, dag-json, dag-cbor), and after it as an oracle. non-trivial = distinct (shape, key assignment, mutation kind, key type) class"
+	c.Res.Rule = "signing histories (sign, change each of the 6+5 signed values, sign again with the same keys, verify; a dag-json / dag-cbor decoded advertisement as the template of the next one; re-signing with another key; plain Sign after SignWithExtendedProviders) carried step by step through the real struct and the model; scenario = advertisement shape (with/without previous link, real/NoEntries link, removal, ExtendedProvider absent / empty / 1..3 entries with or without override, main provider listed at any position or not, signer = provider or a separate publisher) x key types {ed25519, secp256k1, ecdsa, rsa-2048} for signer and entries x key assignment to entries (proper / foreign key / ad signer's key) x one mutation (each of the 6+5 signed values in several ways; each envelope field; every single byte of the ad envelope and of one entry envelope for one advertisement per key type; empty / garbage / truncated signatures; structure changes) x codec round trip before the mutation (none, dag-json, dag-cbor), and after it as an oracle. non-trivial = distinct (shape, key assignment, mutation kind, key type) class"
 	c.Res.Exhaustive = false
 
 	r.generate()
+	r.generateHistories()
 }
 
 func (r *run) replay() {
@@ -548,6 +550,21 @@ func (r *run) replay() {
 	}
 	if err := r.c.LoadReplay(&probe); err != nil {
 		panic(err)
+	}
+	if probe.Kind == "history" {
+		var h history
+		if err := r.c.LoadReplay(&h); err != nil {
+			panic(err)
+		}
+		msg := r.runHistory(&h, true)
+		fmt.Println("replay", h.sig())
+		if msg != "" {
+			fmt.Println("ORACLE-FAIL:", msg)
+			r.c.Fail("replay", msg, h)
+		} else {
+			fmt.Println("oracles hold")
+		}
+		return
 	}
 	if probe.Kind == "sign" {
 		var s struct {
